@@ -163,6 +163,25 @@ func main() {
 			}
 		}
 	}
+	// package-level variables (file scope `var` declarations): shared mutable state candidates
+	pkgVars := map[string]bool{}
+	for _, pkg := range pkgs {
+		for _, f := range pkg.Files {
+			for _, d := range f.Decls {
+				if gd, ok := d.(*ast.GenDecl); ok && gd.Tok == token.VAR {
+					for _, sp := range gd.Specs {
+						if vs, ok := sp.(*ast.ValueSpec); ok {
+							for _, n := range vs.Names {
+								if n.Name != "_" {
+									pkgVars[n.Name] = true
+								}
+							}
+						}
+					}
+				}
+			}
+		}
+	}
 	// transitive closure over same-receiver calls; selectors that are method names are not fields
 	closure := func(m *method) []string {
 		seen := map[string]bool{}
@@ -227,5 +246,11 @@ func main() {
 		sort.Strings(cn)
 		fmt.Printf("/-- calls made directly in the body of `%s` (as written: `x.f`, `pkg.F`, `f`) -/\ndef %s_calls : List String := [%s]\n\n", k, id, strings.Join(cn, ", "))
 	}
+	var pv []string
+	for v := range pkgVars {
+		pv = append(pv, fmt.Sprintf("%q", v))
+	}
+	sort.Strings(pv)
+	fmt.Printf("/-- package-level variables (file-scope `var` declarations of the non-test, non-hook files) -/\ndef pkg_vars : List String := [%s]\n\n", strings.Join(pv, ", "))
 	fmt.Printf("end O4.Facts.%s\n", mod)
 }
